@@ -651,12 +651,15 @@ pub struct Stats {
     pub consumption_checks: u64,
     pub shifted_not_comparable: u64,
     pub keepout_overlaps_tolerated: u64,
+    pub long_texts: u64,
+    pub max_items: u64,
     pub nontrivial: bool,
     pub digest: u64,
 }
 
 fn probe_history(text: &str, h: &History, st: &mut Stats) {
     st.histories += 1;
+    st.max_items = st.max_items.max(h.items.len() as u64);
     st.next_calls += h.items.len() as u64 + 1;
     st.searches += h.calls.len() as u64;
     for r in &h.runs {
@@ -991,7 +994,10 @@ fn job(seed: u64, i: u64, keepout_listed: bool) -> (JobOut, Option<Violation>) {
             out.st.builder_cases += 1;
         }
         for _ in 0..3 {
-            case.text = gen::gen_text(&mut rng, 8);
+            case.text = if rng.chance(1, gen::long_text_odds()) { gen::gen_long_text(&mut rng) } else { gen::gen_text(&mut rng, 8) };
+            if case.text.len() > 40 {
+                out.st.long_texts += 1;
+            }
             case.fault = None;
             // fault-free
             let ff = real_history(&re, &case.text, &None);
@@ -1105,6 +1111,8 @@ fn add(a: &mut Stats, b: &Stats) {
     a.consumption_checks += b.consumption_checks;
     a.shifted_not_comparable += b.shifted_not_comparable;
     a.keepout_overlaps_tolerated += b.keepout_overlaps_tolerated;
+    a.long_texts += b.long_texts;
+    a.max_items = a.max_items.max(b.max_items);
     a.digest ^= b.digest.rotate_left(7);
 }
 
@@ -1207,6 +1215,8 @@ pub fn run(opts: &Opts) -> i32 {
             "histories_also_consumed_through_count_last_nth_after_some_next_calls": st.consumption_checks,
             "continuing_searches_not_comparable_that_way_different_vm_code": st.shifted_not_comparable,
             "generated_histories_showing_the_listed_keepout_overlap_signature": st.keepout_overlaps_tolerated,
+            "texts_of_40_to_250_characters": st.long_texts,
+            "most_items_yielded_by_one_iteration": st.max_items,
         }));
         extra.insert("runs_per_hour".into(), json!(((st.histories as f64) / wall.max(1e-9) * 3600.0) as u64));
         extra.insert("seeds".into(), json!(format!("derive({}, 0..{})", seed, jobs_done)));
